@@ -1,9 +1,15 @@
 """C15 — the front end is total: any text yields a program or diagnostics, never a crash.  DESIGN.md §5 C15.
 
 Obligations (Lean): LaytheVerif.Props.C15 — scanner totality and span discipline, progress of the declaration loop
-with `synchronize`, the regenerated table of narrowing sites, the resolver ⇒ compiler lookup contract (partial).
+with `synchronize`, loop_depth balanced on every path / break and continue accepted only inside a loop of the same
+function, the regenerated table of narrowing sites (guarded or saturating), the label limit, the order of the
+scoping actions of for_/try_/catch in both passes, the resolver ⇒ compiler lookup contract (every program of the
+scoping skeleton, no envelope).
 Streams:
-  contract  (tie C)  scoping skeletons: Model/Contract.lean (resolver errors, compiler lookup panics) vs the real passes
+  corpus    past failures and the witnesses of repaired defects (corpus/C15/*.json: `input` or a `recipe`, optional
+            `expect`: "program" | "diagnostics"), judged by the Spec first on every run
+  contract  (tie C + Spec) scoping skeletons: Model/Contract.lean (resolver errors; a clean resolver run never leads to a
+            compiler lookup panic) vs the real passes; a front-end crash on a skeleton program is a Spec failure
   scan      (tie A)  model token stream (drv_scanner) vs the real scanner observed through Parser::parse (vh_c15 scan)
   malformed (tie B / Spec) mutated inputs through `vharness runbatch` and the compile-only path; the Spec monitor is
             `judge()` below: terminate; program or >= 1 diagnostic with CompileError; nothing executed on diagnostics
@@ -40,36 +46,12 @@ ERR_PREFIX = {"unexpectedChar": SCANNER_MSGS[0], "unterminatedString": SCANNER_M
               "expectedBrace": SCANNER_MSGS[3], "expectedClose": SCANNER_MSGS[4], "tooLong": SCANNER_MSGS[5],
               "invalidUnicode": SCANNER_MSGS[6], "invalidHex": SCANNER_MSGS[7], "invalidEscape": SCANNER_MSGS[8]}
 
-LOOP_KW = re.compile(r"\b(while|for)\b")
-
-
-def _for_or_catch_mentions(text, name):
-    n = re.escape(name)
-    # the iterable may contain lambdas with blocks: any later occurrence of the loop variable counts
-    if re.search(r"\bfor\s+%s\s+in\b.*\b%s\b" % (n, n), text, flags=re.S) or re.search(r"\bcatch\s+%s\s*:\s*%s\b" % (n, n), text):
-        return True
-    # a catch without a class looks up the default class `Error`: `catch Error { }`
-    return name == "Error" and bool(re.search(r"\bcatch\s+Error\s*\{", text))
-
-
-# Signatures of the genuine front-end crashes of the pinned tree (known_findings.jsonl carries the same ids).
-# A crash is *known* iff message and source file match AND the input-side predicate holds.
-KNOWN_SIGS = [
-    {"id": "D21-parser-loop-depth", "msg": r"^attempt to subtract with overflow$", "file": r"compiler/parser\.rs",
-     "pred": lambda t, m: bool(LOOP_KW.search(t))},
-    {"id": "D2-break-locals-depth", "msg": r"^assertion failed: slots >= 0$", "file": r"compiler/peephole\.rs",
-     "pred": lambda t, m: bool(re.search(r"\b(break|continue|raise|return)\b", t))},
-    {"id": "D151-for-iter-catch-class-order", "msg": r"^Symbol (\S+) not found in .*\.$", "file": r"compiler/mod\.rs",
-     "pred": lambda t, m: _for_or_catch_mentions(t, m.group(1))},
-    {"id": "D151-for-iter-catch-class-order", "msg": r"^Unexpected symbol (\S+) in .* with state LocalInitialized\.$",
-     "file": r"compiler/mod\.rs", "pred": lambda t, m: _for_or_catch_mentions(t, m.group(1))},
-    {"id": "D152-lambda-break-in-loop", "msg": r"^Parser should have caught the loop constraint$", "file": r"compiler/mod\.rs",
-     "pred": lambda t, m: bool(LOOP_KW.search(t)) and "|" in t and bool(re.search(r"\b(break|continue)\b", t))},
-    {"id": "D153-line-number-u16", "msg": r"^attempt to add with overflow$", "file": r"compiler/mod\.rs",
-     "pred": lambda t, m: t.count("\n") >= 65535},
-    {"id": "D154-label-count-todo", "msg": r"^not yet implemented: Really handle this$", "file": r"compiler/peephole\.rs",
-     "pred": lambda t, m: len(t) >= 65536},
-]
+# Signatures of genuine front-end crashes of the pinned tree that are still OPEN (known_findings.jsonl carries the same
+# ids, status "known", owner C15).  A crash is *known* iff message and source file match AND the input-side predicate
+# holds: {"id", "msg": regex on the panic message, "file": regex on the panic location, "pred": lambda text, match: bool}.
+# There is none at present: D21, D151, D152, D153, D154 (and the inexact encoding D155) are repaired in the repo; their
+# witnesses are regression inputs in corpus/C15/ and every front-end crash is a violation.
+KNOWN_SIGS = []
 
 
 def known_signature(status, loc, text):
@@ -419,7 +401,7 @@ def scan_mismatch(text, mline, rline):
     if rline.startswith("PANIC"):
         p = rline.split(" ", 2)
         if known_signature("PANIC:" + (p[2] if len(p) > 2 else ""), p[1] if len(p) > 1 else "", text):
-            return None  # a known parser crash (D21): nothing to compare on this text
+            return None  # a crash listed in KNOWN_SIGS (an open known finding): nothing to compare on this text
         return "real scanner/parser panicked: " + rline
     if mline in ("bad-hex", "bad-utf8") or not mline.startswith("T "):
         return "model driver: " + mline[:60]
@@ -618,6 +600,9 @@ def boundary_expect(name):
         return ("f", "Interpolate", 2 * n + 1)
     if kind == "interp_segments":
         return ("f", "Interpolate", n + 2)
+    if kind == "lines":
+        # n newlines, then `print(1);` on line n + 1: encoded exactly, or saturated at the largest representable line
+        return ("script", "line", min(n + 1, 65535))
     return None
 
 
@@ -637,6 +622,12 @@ def check_boundary(name, status, funs):
     elif what == "captures":
         m = re.search(r"captures=(\d+)", line)
         got = int(m.group(1)) if m else None
+    elif what == "line":
+        pre = line.split("|PRE ", 1)[1].split("|", 1)[0] if "|PRE " in line else ""
+        vals = [int(x) for x in re.findall(r"(?:^|;)Call 1@(\d+)", pre)]
+        got = vals[-1] if vals else None
+        if got != val:
+            return "line of the call on source line %d: recorded as %s, expected %d, no diagnostic" % (int(name.rsplit("_", 1)[1]) + 1, got, val)
     else:
         pre = line.split("|PRE ", 1)[1].split("|", 1)[0] if "|PRE " in line else ""
         vals = [int(x) for x in re.findall(r"(?:^|;)%s (\d+)@" % what, pre)]
@@ -780,6 +771,8 @@ def contract_mismatch(mline, rec, text):
         return "model driver: " + mline[:60]
     if m["unhoisted"] != "0":
         return "model: un-hoisted module declaration (generator bug)"
+    if m.get("same") != "1":
+        return "model: the two traversals differ in more than `define` events (contradicts C15_traversals_same_events)"
     st = rec["status"]
     ndiag = len(re.findall(r"^error", rec.get("stderr", ""), flags=re.M))
     if int(m["errors"]) > 0:
@@ -787,61 +780,160 @@ def contract_mismatch(mline, rec, text):
             return "model: resolver reports %s diagnostics; real: %s with %d diagnostics" % (m["errors"], st, ndiag)
         return None
     if m["ok"] == "0":
-        if known_signature(st, rec.get("loc", ""), text) != "D151-for-iter-catch-class-order":
-            return "model: resolver clean, compiler lookup panics (D151); real: %s" % st[:80]
-        if m["sep"] == "1":
-            return "model panics inside the envelope `sep` (contradicts C15_resolve_then_compile_total_partial)"
-        return None
+        return "model: resolver clean but the compiler model panics (contradicts C15_resolve_then_compile_total_ast)"
     if st != "Ok:0":
         return "model: resolver clean and compiler ok; real: %s %s" % (st[:80], rec.get("stderr", "")[:120])
     return None
 
 
+def _skel_shapes(ser):
+    """(a `for` whose iterable mentions the loop variable's name, a `catch` whose class is its variable's name) — the
+    shapes that were outside the proved envelope until the resolver was repaired (D151/D31)."""
+    toks = ser.split()
+    for_self = catch_self = False
+    i = 0
+    while i < len(toks):
+        if toks[i] == "c" and i + 3 < len(toks) and toks[i + 1] == toks[i + 3]:
+            catch_self = True
+        if toks[i] == "r" and i + 3 < len(toks) and toks[i + 3] == "[":
+            # the iterable is the bracketed list that follows `r N ID`
+            depth, j, name = 0, i + 3, toks[i + 1]
+            while j < len(toks):
+                if toks[j] == "[":
+                    depth += 1
+                elif toks[j] == "]":
+                    depth -= 1
+                    if depth == 0:
+                        break
+                elif toks[j] == "u" and j + 1 < len(toks) and toks[j + 1] == name:
+                    for_self = True
+                j += 1
+        i += 1
+    return for_self, catch_self
+
+
 def stream_contract(ctx, runner, rng, n, label="contract"):
+    """returns (spec_violations, tie_failure or None)."""
     cases = [G.gen_skeleton(rng) for _ in range(n)]
     p = subprocess.run([DRV, "contract"], input="".join(c[0] + "\n" for c in cases), stdout=subprocess.PIPE, stderr=subprocess.PIPE,
                        text=True, timeout=1200, preexec_fn=_unlimit_stack)
     mo = p.stdout.split("\n")[:-1]
     files = runner.write([c[1] for c in cases], label)
     co = runner.compile_only(files)
-    stats = {"resolver_rejects": 0, "compiler_panics_D151": 0, "accepted": 0, "inside_envelope": 0, "with_captures": 0}
+    stats = {"resolver_rejects": 0, "accepted": 0, "with_captures": 0, "for_iterable_mentions_item_name": 0,
+             "catch_class_named_like_catch_var": 0, "those_accepted": 0, "front_end_crashes": 0}
     bad = None
+    spec = []
     for i, (ser, src) in enumerate(cases):
+        # the Spec first: a skeleton program is a text like any other — the front end must not crash on it
+        st = co[i]["status"]
+        if st.startswith(("PANIC", "CRASH")) and not known_signature(st, co[i].get("loc", ""), src):
+            stats["front_end_crashes"] += 1
+            if not spec:
+                def crashes(t):
+                    r = single(runner, t, True)
+                    return r["status"].startswith(("PANIC", "CRASH"))
+                small = shrink_text(src, crashes)
+                r = single(runner, small, True)
+                spec.append({"engine": "frontend", "kind": "implementation-vs-spec", "what": "front-end-crash",
+                             "detail": "%s @ %s" % (r["status"], r.get("loc", "")), "input": small, "family": "contract-skeleton",
+                             "skeleton": ser, "compile_only": r})
+                ctx.cov["impl_vs_spec_failures"] += 1
+            continue
         if i >= len(mo):
-            bad = (i, "missing model output (rc=%s)" % p.returncode)
+            bad = bad or (i, "missing model output (rc=%s)" % p.returncode)
             break
         mm = contract_mismatch(mo[i], co[i], src)
         if mm:
-            bad = (i, mm)
-            break
+            bad = bad or (i, mm)
+            continue
         m = dict(kv.split("=") for kv in mo[i].split())
+        fs, cs = _skel_shapes(ser)
+        acc = int(m["errors"]) == 0 and m["ok"] == "1"
         stats["resolver_rejects"] += int(m["errors"]) > 0
-        stats["compiler_panics_D151"] += int(m["errors"]) == 0 and m["ok"] == "0"
-        stats["accepted"] += int(m["errors"]) == 0 and m["ok"] == "1"
-        stats["inside_envelope"] += m["sep"] == "1"
+        stats["accepted"] += acc
+        stats["for_iterable_mentions_item_name"] += fs
+        stats["catch_class_named_like_catch_var"] += cs
+        stats["those_accepted"] += acc and (fs or cs)
         stats["with_captures"] += int(m["captured"]) > 0
         ctx.count_case(["contract", ser], nontrivial=len(ser) > 8)
     ctx.stream_stat(label, programs=len(cases), **stats)
     ctx.cov["traces_validated_against_impl"] += len(cases)
     if bad is None:
-        return None
+        return spec, None
     i, what = bad
-    return {"engine": "contract", "kind": "model-vs-implementation", "what": what, "input": cases[i][1], "skeleton": cases[i][0],
-            "model": mo[i] if i < len(mo) else None, "impl": co[i],
-            "broken": "correspondence stream contract (Model/Contract.lean vs resolver.rs + compiler/mod.rs lookups)"}
+    return spec, {"engine": "contract", "kind": "model-vs-implementation", "what": what, "input": cases[i][1], "skeleton": cases[i][0],
+                  "model": mo[i] if i < len(mo) else None, "impl": co[i],
+                  "broken": "correspondence stream contract (Model/Contract.lean vs resolver.rs + compiler/mod.rs lookups)"}
 
 
 # ---------------------------------------------------------------------------------------------
 # known findings
 
 
+def from_recipe(r):
+    return r.get("prefix", "") + r["unit"] * r["count"] + r.get("suffix", "")
+
+
 def materialise(witness_path):
     """a witness is a `.lay` file, or a `.json` recipe {"prefix","unit","count","suffix"} for the large ones."""
     p = os.path.join(common.VERIF, witness_path)
     if p.endswith(".json"):
-        r = json.load(open(p))
-        return r.get("prefix", "") + r["unit"] * r["count"] + r.get("suffix", "")
+        return from_recipe(json.load(open(p)))
     return open(p, encoding="utf-8").read()
+
+
+def entry_text(r):
+    """text of a corpus entry / violation payload: `input`, or a `recipe` for the large ones."""
+    if "recipe" in r:
+        return from_recipe(r["recipe"])
+    return r.get("input", "")
+
+
+def load_corpus():
+    """[(file name, text, expect or None, record)] of corpus/C15."""
+    cdir = os.path.join(common.VERIF, "corpus", PROP)
+    out = []
+    if os.path.isdir(cdir):
+        for f in sorted(os.listdir(cdir)):
+            if not f.endswith(".json"):
+                continue
+            r = json.load(open(os.path.join(cdir, f)))
+            if "input" in r or "recipe" in r:
+                out.append((f, entry_text(r), r.get("expect"), r))
+    return out
+
+
+def outcome_of(status):
+    return {"Ok:0": "program", "CompileError:1": "diagnostics"}.get(status, status)
+
+
+def stream_corpus(ctx, runner, entries):
+    """past failures and witnesses of repaired defects: the Spec monitor on each, then the recorded expectation
+    (`expect`: the front end answers with a program / with diagnostics)."""
+    v, _ = stream_malformed(ctx, runner, [("corpus", t) for _, t, _, _ in entries], "corpus")
+    if v:
+        for x in v:
+            x["family"] = "corpus"
+        return v
+    exp = [e for e in entries if e[2]]
+    co = runner.compile_only(runner.write([e[1] for e in exp], "corpus_expect"), timeout=180)
+    out = []
+    for (name, text, want, rec), r in zip(exp, co):
+        got = outcome_of(r["status"])
+        if got != want and not out:
+            pl = {"engine": "frontend", "kind": "implementation-vs-spec", "what": "regression-input-changed-result", "case": name,
+                  "detail": "corpus/C15/%s: expected %s, the front end answers %s @ %s" % (name, want, r["status"], r.get("loc", "")),
+                  "expect": want, "corpus": name, "why": rec.get("why", ""), "compile_only": {k: (v[:600] if isinstance(v, str) else v) for k, v in r.items()}}
+            if "recipe" in rec:
+                pl["recipe"] = rec["recipe"]
+                pl["input"] = text[:300] + "…"
+            else:
+                pl["input"] = text
+            out.append(pl)
+            ctx.cov["impl_vs_spec_failures"] += 1
+    ctx.stream_stat("corpus", with_expectation=len(exp), expectation_met=len(exp) - len(out))
+    return out
 
 
 def replay_known(ctx, runner):
@@ -878,8 +970,34 @@ def replay_known(ctx, runner):
 # the check
 
 
+# the 16-bit boundary cases of the quick tier (and of `search`)
+QUICK_BIG = re.compile(r"constants_6553[67]|list_items_6553[45]|map_items_6553[56]|interp_segments_6553[345]|module_symbols_6553[56]|"
+                       r"jump_65k|lines_6553[456]|lines_70000|labels_6553[56]|ifelse_3276[78]")
+
+
 def build_inputs(ctx, rng, n, corpus, progs):
     return [G.gen_case(rng, corpus, progs, NEST_MAX) for _ in range(n)]
+
+
+SCAN_CONTEXTS = ["%s", "%s;", "print(%s);", "let z = %s;", "let z = %s; print(z);", "fn f() { return %s; }\nprint(f());",
+                 "print(\"${%s}\");", "print([%s]);", "if %s { }", "print(1 + %s);", "print(%s + 1);"]
+
+
+def targeted_search(ctx, runner, text):
+    """after a scanner-tie failure on `text`: the substrings of that text (it is already shrunk) put into expression and
+    statement contexts of otherwise valid programs, judged by the Spec — a lexeme the real scanner mis-classifies reaches
+    the parser and the compiler there."""
+    if len(text) <= 24:
+        subs = {text[i:j] for i in range(len(text)) for j in range(i + 1, len(text) + 1)}
+    else:
+        toks = G.TOK.findall(text)
+        subs = {"".join(toks[i:j]) for i in range(len(toks)) for j in range(i + 1, min(len(toks), i + 6) + 1)}
+    subs = sorted(subs, key=lambda x: (len(x), x))[:400]
+    cases = [("scan-context", G.MARKER + c % sub) for sub in subs for c in SCAN_CONTEXTS]
+    found, _ = stream_malformed(ctx, runner, cases, "search_scan_context")
+    for f in found:
+        f["found_by"] = "search (contexts around the text on which scanner model and scanner disagree)"
+    return found
 
 
 def search(ctx, runner, rng, corpus, progs, budget):
@@ -887,6 +1005,9 @@ def search(ctx, runner, rng, corpus, progs, budget):
     found = []
     b, _ = stream_boundary(ctx, runner, G.boundary_cases(), "search_boundary")
     found += b
+    if not found:
+        b, _ = stream_boundary(ctx, runner, [c for c in G.big_boundary_cases() if QUICK_BIG.search(c[0])], "search_boundary16", watchdog=180)
+        found += b
     if not found:
         for k in range(0, budget, 20000):
             v, _ = stream_malformed(ctx, runner, build_inputs(ctx, rng, min(20000, budget - k), corpus, progs), "search_malformed")
@@ -947,9 +1068,15 @@ def _run(ctx, tmp, proved):
             ctx.violation(name if seen[name] == 1 else "%s_%d" % (name, seen[name]), v)
         return bool(vs)
 
+    entries = load_corpus()
+    pre = [("corpus", e[1]) for e in entries]
+
     if not proved:
         what, detail = ctx.broken
-        found = search(ctx, runner, rng, corpus, progs, ctx.n(50000, 300000))
+        found = stream_corpus(ctx, runner, entries) if entries else []
+        for f in found:
+            f["found_by"] = "corpus"
+        found = found or search(ctx, runner, rng, corpus, progs, ctx.n(50000, 300000))
         if found:
             for f in found:
                 f["broken_obligation"] = what
@@ -958,17 +1085,9 @@ def _run(ctx, tmp, proved):
             ctx.violation("proof", {"kind": "proof-obligation-failed", "broken": what, "detail": detail}, no_input=True)
         return
 
-    # 0. past failures first
-    cdir = os.path.join(common.VERIF, "corpus", PROP)
-    pre = []
-    if os.path.isdir(cdir):
-        for f in sorted(os.listdir(cdir)):
-            r = json.load(open(os.path.join(cdir, f)))
-            if "input" in r:
-                pre.append(("corpus", r["input"]))
-    if pre:
-        v, _ = stream_malformed(ctx, runner, pre, "corpus")
-        if report(v):
+    # 0. past failures and the witnesses of repaired defects first
+    if entries:
+        if report(stream_corpus(ctx, runner, entries)):
             return
 
     lap("setup")
@@ -977,26 +1096,30 @@ def _run(ctx, tmp, proved):
     lap("known")
 
     # 2. tie A: scanner
-    scan_texts = list(SCAN_EDGE) + [t for _, t in pre] + [t for _, t in corpus]
+    scan_texts = list(SCAN_EDGE) + [t for _, t in pre if len(t) < 30000] + [t for _, t in corpus]
     scan_texts += [let_probe(rng) for _ in range(ctx.n(1500, 60000))]
     sample = build_inputs(ctx, rng, ctx.n(1500, 60000), corpus, progs)
     scan_texts += [t for _, t in sample if len(t) < 30000]
     v = stream_scan(ctx, scan_texts)
     if v:
         ctx.cov["model_vs_impl_disagreements"] += 1
-        found = search(ctx, runner, rng, corpus, progs, ctx.n(50000, 300000))
+        found = targeted_search(ctx, runner, v.get("input", "")) or search(ctx, runner, rng, corpus, progs, ctx.n(50000, 300000))
         if found:
+            for f in found:
+                f["tie_failure"] = {k: v[k] for k in ("what", "input", "model", "impl", "broken") if k in v}
             report(found[:3])
         else:
             ctx.violation("scan_tie", v, no_input=True)
         return
     lap("scan")
-    k0 = len(SCAN_EDGE) + len(pre) + 3
+    k0 = len(SCAN_EDGE) + len([1 for _, t in pre if len(t) < 30000]) + 3
     ctx.sample({"scan_input": scan_texts[k0][:120], "model": run_model_scan([scan_texts[k0]])[0][0][:200]})
 
     # 2b. tie C: resolver => compiler contract
-    v = stream_contract(ctx, runner, rng, ctx.n(3000, 60000))
+    sv, v = stream_contract(ctx, runner, rng, ctx.n(3000, 60000))
     lap("contract")
+    if report(sv):
+        return
     if v:
         ctx.cov["model_vs_impl_disagreements"] += 1
         found = search(ctx, runner, rng, corpus, progs, ctx.n(50000, 300000))
@@ -1025,8 +1148,7 @@ def _run(ctx, tmp, proved):
     cases = G.boundary_cases()
     big = G.big_boundary_cases()
     if ctx.quick():
-        big = [c for c in big if re.search(r"constants_6553[67]|list_items_6553[45]|map_items_6553[56]|interp_segments_6553[345]|"
-                                           r"module_symbols_6553[56]|jump_65k|lines_65534|labels_65535", c[0])]
+        big = [c for c in big if QUICK_BIG.search(c[0])]
     v, kh = stream_boundary(ctx, runner, cases)
     if report(v):
         return
@@ -1075,7 +1197,9 @@ def _run(ctx, tmp, proved):
     ctx.assumptions += [
         "the parser's ~2300 lines are not modelled: their totality is sampled by the malformed-input stream, not proved (only the progress of the declaration loop with synchronize is proved, over token kinds, for an arbitrary grammar oracle)",
         "the scanner is private to laythe_vm: tie A observes it through Parser::parse (spans and messages of diagnostics, line-offset table), not token by token",
-        "C15_resolve_then_compile_total is proved over scoping-event sequences and, at AST level, for the scoping skeleton let/fn/lambda/block/for/catch in the two real traversal orders inside the envelope `sep` (no for-iterable reads its loop variable, no catch class is its variable; outside it the real code panics: D151); classes (self/super), imports/exports and the REPL fallbacks are not in the skeleton; that the real passes perform these events is checked by the contract stream (model vs real resolver+compiler on generated programs), not proved",
+        "C15_resolve_then_compile_total is proved over scoping-event sequences and, at AST level, for every program of the scoping skeleton let/fn/lambda/block/for/catch in the two real traversal orders (no envelope); classes (self/super), imports/exports and the REPL fallbacks are not in the skeleton; that the real passes perform these events is checked by the contract stream (model vs real resolver+compiler on generated programs) and, for the order of the actions of for_/try_/catch, by the regenerated table Gen.scopeOrder, not proved",
+        "Model/LoopDepth.lean abstracts the parser to the call tree of the functions that touch loop_depth (loop_, function, lambda, break_/continue_, decl with synchronize); it is tied to parser.rs / compiler/mod.rs by regenerated tables only (every mention of loop_depth and loop_attributes, the save/restore shapes, the only error-catching function); the grammar fact `gram` (break/continue are statements; expressions contain statements only inside function literals) is an assumption; the malformed stream searches for crashes at these sites",
+        "narrowing site handler_slots ((slots + params) as u16 in apply_stack_effects, marked TODO in the source) has no guard in the text; it is listed as unguarded and argued unreachable (locals <= 256, parameters <= 255)",
         "runtime crashes of accepted programs are C16's subject: counted, not judged here",
         "nesting is bounded by %d in the regression stream; the debug harness overflows the host stack first at depth ~1890 (class-in-method nesting)" % NEST_MAX,
     ]
@@ -1130,10 +1254,14 @@ def replay(path):
                 v, _ = stream_boundary(_C(), runner, case)
                 print(json.dumps(v)[:800])
                 return 1 if v else 0
-        t = r.get("input", "")
-        v, d = verdict_of(runner, t)
+        t = entry_text(r)
+        v, d = verdict_of(runner, t, timeout=180 if len(t) > 100000 else 10)
         print("input:", t[:400])
         print("verdict:", v, d)
+        if r.get("expect") and not v.startswith("VIOLATION"):
+            got = outcome_of(single(runner, t, True)["status"])
+            print("expected:", r["expect"], "got:", got)
+            return 1 if got != r["expect"] else 0
         return 1 if v.startswith("VIOLATION") else 0
     finally:
         shutil.rmtree(tmp, ignore_errors=True)
